@@ -5,7 +5,7 @@
    of the same geometric operands give the same result (explicit corollaries at the end).
    Statements only; proofs in proofs/Spec_*.v over the definitions generated from /repo on this run. *)
 From Coq Require Import Reals.
-From VP Require Import Lib RLib Spec Compute Tables Spec_planar Spec_spatial1 Spec_spatial2 Spec_lorentz Spec_lorentz2.
+From VP Require Import Lib RLib Spec Compute Tables Spec_planar Spec_spatial1 Spec_spatial2 Spec_lorentz Spec_lorentz2 Spec_lorentz3.
 From VP Require ObjModel ObjNames NbModel NbApi NbChecks.
 Import ObjNames List.ListNotations.
 Open Scope R_scope.
@@ -175,6 +175,38 @@ Theorem C01_lorentz_to_beta3 : forall s l t a b c d, rep4 s l t a b c d -> 0 < s
   den3 (T_lorentz_to_beta3 s l t a b c d)
   = Some (sx s a b / st s l t a b c d, sy s a b / st s l t a b c d, sz s l a b c / st s l t a b c d).
 Proof. exact to_beta3_spec. Qed.
+
+(* unit vectors: v / |v| (3D, v <> 0) and v / tau (4D, time-like; tau > 0 when tau is stored), all signatures *)
+Theorem C01_unit_vectors : forall s l a b c, rep3 s l a b c -> 0 < smag2 s l a b c ->
+  den3 (T_spatial_unit s l a b c)
+    = Some (sx s a b / sqrt (smag2 s l a b c), sy s a b / sqrt (smag2 s l a b c), sz s l a b c / sqrt (smag2 s l a b c)) /\
+  (forall t d, rep4 s l t a b c d -> let T := st s l t a b c d in let P2 := smag2 s l a b c in
+     P2 < T * T -> (t = TTau -> 0 < d) ->
+     den4 (T_lorentz_unit s l t a b c d)
+     = Some (sx s a b / sqrt (T * T - P2), sy s a b / sqrt (T * T - P2), sz s l a b c / sqrt (T * T - P2), T / sqrt (T * T - P2))).
+Proof. intros s l a b c H Hm. split; [exact (unit_spec3 s l a b c H Hm) | intros t d; exact (unit_spec4 s l t a b c d)]. Qed.
+
+(* Et2 = Et^2; deltaRapidityPhi(2) are composed of deltaphi and the rapidities (both storage independent, above);
+   transform4D reduces to the Cartesian variant *)
+Theorem C01_lorentz_composites : forall s1 l1 t1 s2 l2 t2 a1 b1 c1 d1 a2 b2 c2 d2,
+  (rep4 s1 l1 t1 a1 b1 c1 d1 -> pos_az s1 a1 b1 ->
+     numr (T_lorentz_Et2 s1 l1 t1 a1 b1 c1 d1)
+     = Some ((st s1 l1 t1 a1 b1 c1 d1 * srho s1 a1 b1 / sqrt (smag2 s1 l1 a1 b1 c1)) * (st s1 l1 t1 a1 b1 c1 d1 * srho s1 a1 b1 / sqrt (smag2 s1 l1 a1 b1 c1)))) /\
+  numr (T_lorentz_deltaRapidityPhi2 s1 l1 t1 s2 l2 t2 a1 b1 c1 d1 a2 b2 c2 d2)
+    = match numr (T_planar_deltaphi s1 s2 a1 b1 a2 b2), numr (T_lorentz_rapidity s1 l1 t1 a1 b1 c1 d1), numr (T_lorentz_rapidity s2 l2 t2 a2 b2 c2 d2) with
+      | Some p, Some r1, Some r2 => Some (p * p + (r1 - r2) * (r1 - r2)) | _, _, _ => None end /\
+  numr (T_lorentz_deltaRapidityPhi s1 l1 t1 s2 l2 t2 a1 b1 c1 d1 a2 b2 c2 d2)
+    = lift1 sqrt (numr (T_lorentz_deltaRapidityPhi2 s1 l1 t1 s2 l2 t2 a1 b1 c1 d1 a2 b2 c2 d2)) /\
+  (forall xx xy xz xt yx yy yz yt zx zy zz zt tx ty tz tt,
+     den4 (T_lorentz_transform4D s1 l1 TT xx xy xz xt yx yy yz yt zx zy zz zt tx ty tz tt a1 b1 c1 d1)
+     = den4 (T_lorentz_transform4D XY LZ TT xx xy xz xt yx yy yz yt zx zy zz zt tx ty tz tt (sx s1 a1 b1) (sy s1 a1 b1) (sz s1 l1 a1 b1 c1) d1)).
+Proof.
+  intros. repeat split.
+  - apply Et2_spec.
+  - apply deltaRapidityPhi2_def.
+  - apply deltaRapidityPhi_def.
+  - intros. apply transform4D_square.
+Qed.
 
 (* ---------------- explicit storage-independence corollary (the shape every theorem above yields) ---------------- *)
 Theorem C01_dot_same_for_all_storages :
